@@ -51,6 +51,8 @@ impl InstructionGenerator {
             // run matched CASE block statements
             self.visit(statements);
             // jump out of SELECT
+            // (RESUME NEXT after the last statement of the block continues here, not in the next block)
+            self.mark_statement_address();
             self.jump(labels::end_select(), pos);
         }
     }
